@@ -213,7 +213,7 @@ def run(run, thorough):
                      {'scenario': scn, 'exc': res['steps'][0]['exc'], 'stderr': res['steps'][0]['stderr'][-300:]}, key='uncaught-exception', section='refused-removal')
     # --all-users: the trash directories of EVERY user of the password database, on every volume - also of a user whose home directory
     # does not exist (a system account, a removed home): its $topdir/.Trash-$uid and $topdir/.Trash/$uid hold entries like any other.
-    # (--all-users is not in the Coq model: oracle only.)
+    # (--all-users is in the Coq model, Scan.scan_all_users: trace tie and world tie apply.)
     au, aum = [], []
     for days, home in ((7, '/nonexistent'), (7, '/home/other'), (None, '/nonexistent'), (0, '/var/empty')):
         tree = [['d', '/home/u', 0o755], ['d', '/vol1', 0o755], ['d', '/vol1/.Trash', 0o1777]] + scen.canary()
@@ -232,11 +232,9 @@ def run(run, thorough):
         au.append({'tree': tree, 'mounts': ['/vol1'], 'cwd': '/', 'uid': 1000, 'env': {'HOME': '/home/u', 'TRASH_VOLUMES': '/:/vol1'}, 'steps': [step],
                    'judge_meta': {'days': days, 'ents': ents, 'orphans': [], 'micro': 0}})
         aum.append({'days': days, 'ents': ents, 'orphans': [], 'micro': 0})
-    for scn, m, res in zip(au, aum, sandbox.execute_many(au)):
-        if res.get('harness_error') or not res.get('steps'):
-            run.fail('harness', 'sandbox failure', {'error': res.get('harness_error'), 'scenario': scn})
-            continue
-        judge(run, scn, m, res, section='all-users')
+    by_id3 = {id(s): m for s, m in zip(au, aum)}
+    for scn, res in engine.run_all(run, 'all-users-tie', au):
+        judge(run, scn, by_id3[id(scn)], res, section='all-users')
     if out:
         run.sample({'level': 'state', 'argv': out[0][0]['steps'][0]['argv'], 'entries': metas[0]['ents'][:3]})
 
